@@ -192,9 +192,17 @@ type cacheModel struct {
 
 var cacheKeys = []string{"k1", "k2", "k3", "k4", "bad", "once"}
 
+// cacheKeysBig is the alphabet for capacities 4 and 5 (enough distinct keys to
+// overflow them and then come back to an old key).
+var cacheKeysBig = []string{"k1", "k2", "k3", "k4", "k5", "k6", "bad"}
+
 // cacheHistory replays a key sequence on a fresh cache of the given capacity
 // and checks every invariant of the property after every get.
 func cacheHistory(capacity int, seq []int) (fail string, states []string, hits int) {
+	return cacheHistoryKeys(cacheKeys, capacity, seq)
+}
+
+func cacheHistoryKeys(cacheKeys []string, capacity int, seq []int) (fail string, states []string, hits int) {
 	calls := map[string]int{}
 	onceFailed := false
 	loader := func(k interface{}) (interface{}, error) {
@@ -258,10 +266,13 @@ func containsStr(a []string, s string) bool {
 }
 
 func cacheSeqSpace(maxLen int) *explore.Space {
-	caps := []int{0, 1, 2, 3}
+	return cacheSeqSpaceOver("CacheSeq", cacheKeys, []int{0, 1, 2, 3}, maxLen)
+}
+
+func cacheSeqSpaceOver(name string, cacheKeys []string, caps []int, maxLen int) *explore.Space {
 	k := len(cacheKeys)
 	return &explore.Space{
-		Name: fmt.Sprintf("CacheSeq<=%d", maxLen), Desc: fmt.Sprintf("every get sequence of length <= %d over %d keys (4 good, one always failing, one failing once) on caches of capacity 0..3; all invariants after every get", maxLen, k),
+		Name: fmt.Sprintf("%s<=%d", name, maxLen), Desc: fmt.Sprintf("every get sequence of length <= %d over the %d keys %v on caches of capacity %v; all invariants after every get", maxLen, k, cacheKeys, caps),
 		Size:  len(caps) * k * k,
 		Label: func(i int) string { return fmt.Sprintf("cap=%d first=%s,%s", caps[i/(k*k)], cacheKeys[(i/k)%k], cacheKeys[i%k]) },
 		Run: func(item int, w *explore.Worker) {
@@ -282,7 +293,7 @@ func cacheSeqSpace(maxLen int) *explore.Space {
 						c /= k
 					}
 					w.Eval()
-					fail, states, hits := cacheHistory(capacity, seq)
+					fail, states, hits := cacheHistoryKeys(cacheKeys, capacity, seq)
 					for _, s := range states {
 						seen[s] = true
 					}
@@ -305,7 +316,7 @@ func cacheSeqSpace(maxLen int) *explore.Space {
 						cls = cls[:j]
 					}
 					w.Violation(&report.Case{Kind: "cacheseq", Expr: fmt.Sprintf("cap=%d: %s", capacity, strings.Join(names, " ")),
-						Extra: map[string]interface{}{"cap": capacity, "seq": fmt.Sprint(seq)}, Expected: "all cache invariants after every get", Got: fail, Class: "cache",
+						Extra: map[string]interface{}{"cap": capacity, "seq": fmt.Sprint(seq), "keys": strings.Join(cacheKeys, ",")}, Expected: "all cache invariants after every get", Got: fail, Class: "cache",
 						Sig: fmt.Sprintf("C16|CacheSeq|cap=%d|%s", capacity, cls), Weight: n})
 				}
 			}
@@ -520,7 +531,18 @@ func init() {
 			fmt.Sscan(f, &n)
 			seq = append(seq, n)
 		}
-		fail, _, _ := cacheHistory(int(c.Extra["cap"].(float64)), seq)
+		keys := cacheKeys
+		if ks, ok := c.Extra["keys"].(string); ok && ks != "" {
+			keys = strings.Split(ks, ",")
+		}
+		capv := 0
+		switch v := c.Extra["cap"].(type) {
+		case float64:
+			capv = int(v)
+		case int:
+			capv = v
+		}
+		fail, _, _ := cacheHistoryKeys(keys, capv, seq)
 		if fail == "" {
 			return "all invariants hold", true, nil
 		}
@@ -530,7 +552,7 @@ func init() {
 		ID: "C16", Level: "model_checking",
 		Rule: "semantics: matches()/replace() for every pattern of <= 4 (thorough: 5) regex tokens over 14 tokens (including non-compiling patterns) x 15 subjects x 12 replacement strings, pattern constant or computed, compared with Go regexp (a constant bad pattern must be a compile error, a computed one a deliberate evaluation error); plus predicates whose pattern and subject are computed from each candidate node on documents with 2 (thorough: 3) rule elements over all (subject, pattern) combinations. cache, sequential: every get sequence of length <= 6 (thorough: 8) over 6 keys (one always failing, one failing once) on capacities 0..3 is replayed on a fresh loadingCache; after EVERY get: value exact, |entries| <= capacity, failed loads not remembered, uncached keys (incl. failed ones) go to the loader again (states = distinct (capacity, key set, fail-once flag), transitions = gets). cache, concurrent (explorer C): every interleaving of 2-3 goroutines x 1-2 gets over colliding keys up to a preemption bound, scheduling points at every statement of the package and every lock operation (blocking modelled), size invariant at every scheduling point, exactness at every return; plus a free-running -race pass; non-trivial = sequence with a cache hit / compiling pattern; distinct = distinct sequences / patterns",
 		Assumptions:    []string{"Go regexp is the specification of matches/replace", "statement-granularity interleavings under sequential consistency; plain-memory races delegated to the -race pass", "bounded sequence length, capacities 0..3, 2-3 goroutines"},
-		Budget:         budget(55*time.Second, 14*time.Minute),
+		Budget:         budget(90*time.Second, 14*time.Minute),
 		MinRefOutcomes: 1,
 		WorkerProcs:    1,
 		Post: func(tier string, m *explore.Merged) {
@@ -539,9 +561,9 @@ func init() {
 			}
 		},
 		Spaces: func(tier string) []*explore.Space {
-			sp := []*explore.Space{matchSpace(4), replaceSpace(3), perNodeSpace(2), cacheSeqSpace(6), smallCacheSpace(4)}
+			sp := []*explore.Space{matchSpace(4), replaceSpace(3), perNodeSpace(2), cacheSeqSpace(6), cacheSeqSpaceOver("CacheSeqBig", cacheKeysBig, []int{4, 5}, 6), smallCacheSpace(4)}
 			if tier == "thorough" {
-				sp = []*explore.Space{matchSpace(5), replaceSpace(4), perNodeSpace(3), cacheSeqSpace(8), smallCacheSpace(6)}
+				sp = []*explore.Space{matchSpace(5), replaceSpace(4), perNodeSpace(3), cacheSeqSpace(8), cacheSeqSpaceOver("CacheSeqBig", cacheKeysBig, []int{4, 5, 6}, 8), smallCacheSpace(6)}
 			}
 			if c16Extra != nil {
 				sp = append(sp, c16Extra(tier)...)
